@@ -185,6 +185,35 @@ def r16_dispatch(chk, prog, rule="R16-dispatch"):
     chk.rule(rule, "token constructions in tokenize_core with their in-iteration reaching condition, compared with the reviewed table", n, floor=10)
 
 
+def producer_chain(b, l, depth=0):
+    """names of the calls a value went through on its way into local l (copies and references skipped), nearest first"""
+    if depth > 6 or 1 <= l <= b.argc:
+        return []
+    defs = []
+    for bi, blk in enumerate(b.blocks):
+        if blk["cleanup"]:
+            continue
+        for st in blk["s"]:
+            if st["k"] == "assign" and not st["p"]["p"] and st["p"]["l"] == l:
+                defs.append(("s", st))
+        t = blk["t"]
+        if t["k"] == "call" and t.get("dest") and not t["dest"]["p"] and t["dest"]["l"] == l:
+            defs.append(("c", t))
+    if len(defs) != 1:
+        return []
+    k, d = defs[0]
+    if k == "s":
+        rv = d["rv"]
+        pl = rv["p"] if rv["r"] == "ref" else (mir.op_place(rv["a"]) if rv["r"] in ("use", "cast") else None)
+        return producer_chain(b, pl["l"], depth + 1) if pl is not None else []
+    nm = mir.strip_generics((d.get("res") or "").lstrip("?")).split("::")[-1]
+    if nm in ("deref", "deref_mut", "as_ref", "as_mut", "borrow", "as_str", "into", "from"):
+        ip = mir.op_place(d["args"][0]) if d["args"] else None
+        return producer_chain(b, ip["l"], depth + 1) if ip is not None else []
+    ip = mir.op_place(d["args"][0]) if d["args"] else None
+    return [nm] + (producer_chain(b, ip["l"], depth + 1) if ip is not None and not ip["p"] else [])
+
+
 def tokenizer_table(prog):
     A = sym.Analyzer(prog, opaque=[r"tokenizer::.*", r"loader::.*", r"a2ml::.*"])
     out = {}
@@ -201,7 +230,15 @@ def tokenizer_table(prog):
             if ev[0] == "call" and ev[3] == fid:
                 cseen.add((ev[1], ev[6]))
             if ev[0] == "call" and ev[3] == fid and re.search(r"(tokenizer::tokenize|a2ml::tokenize_a2ml|a2ml::tokenize_tag|a2ml::tokenize_number|a2ml::tokenize_keyword_ident|a2ml::tokenize_include|a2ml::make_errtxt|loader::load|loader::make_include_filename|Vec::append|Vec::extend_from_slice|Vec::extend|Vec::push|String::push_str)$", ev[1]):
-                rows.append(["call " + ev[1].split("::")[-1] + ("(%s)" % guards.fmt_terms(ev[2][0]) if re.search(r"(append|extend_from_slice|extend|push|push_str)$", ev[1]) else ""), sorted(guards.guard_set(b, S, ev[6]))])
+                eff = "call " + ev[1].split("::")[-1] + ("(%s)" % guards.fmt_terms(ev[2][0]) if re.search(r"(append|extend_from_slice|extend|push|push_str)$", ev[1]) else "")
+                if ev[1].endswith("String::push_str"):
+                    # what is appended to the flattened text: the calls the appended value went through (a slice taken as it is, or
+                    # trimmed / converted on the way)
+                    pt = b.blocks[ev[6]]["t"]
+                    ap = mir.op_place(pt["args"][1]) if len(pt.get("args", [])) > 1 else None
+                    if ap is not None and not ap["p"]:
+                        eff += " <- " + ("<-".join(producer_chain(b, ap["l"])) or "value")
+                rows.append([eff, sorted(guards.guard_set(b, S, ev[6]))])
         rows.sort(key=lambda r: (r[0], r[1]))
         out[fid] = rows
     # resolution of the include file name relative to the including file
